@@ -195,8 +195,8 @@ pub fn inputs_for(s: &Subject, seed: u64, quick: bool) -> Vec<Input> {
     let shape = e.ops.shape();
     let mut rng = Rng::derive(seed, &format!("c06/{}", s.label));
     let mut out: Vec<Input> = vec![];
-    let nvals = if slow_build() { 1 } else if quick { 3 } else { 10 };
-    let per_mark = if slow_build() { 3 } else if quick { 4 } else { 40 };
+    let nvals = if slow_build() { 1 } else if quick { 3 } else { 5 };
+    let per_mark = if slow_build() { 3 } else if quick { 4 } else { 12 };
     let mut bases = 0;
     let mut tries = 0;
     while bases < nvals && tries < nvals * 3 {
@@ -208,12 +208,12 @@ pub fn inputs_for(s: &Subject, seed: u64, quick: bool) -> Vec<Input> {
         bases += 1;
         let mut marks = marks;
         // bound work on big values: sample marks
-        while marks.len() > if quick { 12 } else { 60 } {
+        while marks.len() > if quick { 12 } else { 30 } {
             let i = rng.below(marks.len());
             marks.swap_remove(i);
         }
         let mut muts = structured_mutants(&payload, &marks, &mut rng, per_mark);
-        muts.extend(random_mutants(&payload, &mut rng, if quick { 10 } else { 120 }));
+        muts.extend(random_mutants(&payload, &mut rng, if quick { 10 } else { 40 }));
         if cfg!(miri) {
             // The interpreter aborts the whole shard ("resource exhaustion") where a native build gets a failed
             // allocation: inputs whose first defect is a declared length of millions of elements are left to the
@@ -255,7 +255,7 @@ pub fn inputs_for(s: &Subject, seed: u64, quick: bool) -> Vec<Input> {
             let schema_end = file.len().saturating_sub(payload.len());
             // (schema sections declare lengths too: under the interpreter they are left to the native builds)
             if schema_end > 17 && !cfg!(miri) {
-                for k in 0..if quick { 12 } else { 150 } {
+                for k in 0..if quick { 12 } else { 40 } {
                     let mut f = file.clone();
                     let p = 16 + rng.below(schema_end - 16);
                     let what;
@@ -435,7 +435,8 @@ pub fn run(ctx: &mut Ctx, reg: &Registry) {
         ctx.count_n("inputs_total", inputs.len() as u64);
         return;
     }
-    let stride = ctx.t(2, 1);
+    // thorough: the native debug build is several times slower per input and takes every second subject
+    let stride = if !ctx.quick() && ctx.build == "debug" { 2 } else { ctx.t(2, 1) };
     for s in subs.iter() {
         if !ctx.mine(s.index) || !ctx.wants_type(&s.label) || !slow_keep(s) {
             continue;
